@@ -1,4 +1,5 @@
 import I18n.Lemmas.MoParse
+import I18n.Lemmas.MoLayout
 /-!
 # C08 — every well-formed MO file decodes to exactly the catalog it encodes
 
@@ -50,17 +51,6 @@ def witnessFile : Bytes :=
 
 def witnessCat : List CatEntry := [⟨some [99], [105], none, [[115]]⟩]
 
-theorem WordAt_of_read1 {be : Bool} {b : Bytes} {off w : Nat} (h : read1 be b off = .ok w) : WordAt be b off w := by
-  rcases read1_cases be b off with ⟨_, hr⟩ | ⟨w', hw, hr⟩
-  · rw [hr] at h; cases h
-  · rw [hr] at h; cases h; exact hw
-
-theorem StringAt_of_readString {be : Bool} {b : Bytes} {desc : Nat} {s : Bytes} (nt : SynErr)
-    (h : readString be b desc nt = .ok s) : StringAt be b desc s := by
-  rcases readString_cases be b desc nt with ⟨s', hs, hr⟩ | ⟨x, hr⟩
-  · rw [hr] at h; cases h; exact hs
-  · rw [hr] at h; cases h
-
 theorem witness_encodes : Encodes witnessFile witnessCat false := by
   refine ⟨false, 0, 0, 20, 28, ?_, WordAt_of_read1 (by rfl), by decide, by decide, WordAt_of_read1 (by rfl), rfl,
     WordAt_of_read1 (by rfl), WordAt_of_read1 (by rfl), ⟨?_, ?_, trivial⟩, trivial⟩
@@ -97,6 +87,33 @@ theorem parse_of_encodes_refuted : ¬ ParseOfEncodes asciiDB := by
   injection this with this
   revert this
   decide
+
+/-! ### the layout family -/
+
+/-- **Every layout of the family is a legal file**: either byte order, major 0/1, any minor revision (with word 36
+    when it is 1), arbitrary bytes after the five header words a reader needs (hash-table fields, sysdep fields, a
+    hash table, …), the two descriptor tables in either order with arbitrary bytes between and after them, every
+    string preceded by arbitrary padding, arbitrary trailer.  With `parse_of_encodes_as_coded` this gives
+    `parse (serialize cat l)` for every catalog and every such layout. -/
+theorem serialize_encodes (cat : List CatEntry) (l : Layout) (hok : l.OK cat) :
+    Encodes (serialize cat l) cat l.hidden :=
+  serialize_encodes_aux cat l hok
+
+/-- `forall catalogs c, forall layouts l: parse(serialize(c, l)) == c` — as coded (contexts exchanged) … -/
+theorem parse_serialize_as_coded (db : CodecDB) (given : Option Bytes) (cat : List CatEntry) (l : Layout)
+    (hok : l.OK cat) (hwf : ∀ e ∈ cat, e.WF) :
+    parse db given (serialize cat l) = expectedAsCoded db given cat l.hidden :=
+  parse_complete db given (serialize_encodes cat l hok) hwf
+
+/-- … and exactly as stated when no entry has a context. -/
+theorem parse_serialize_partial (db : CodecDB) (given : Option Bytes) (cat : List CatEntry) (l : Layout)
+    (hok : l.OK cat) (hwf : ∀ e ∈ cat, e.WF) (hctx : ∀ e ∈ cat, e.ctxt = none) :
+    parse db given (serialize cat l) = expected db given cat l.hidden :=
+  parse_of_encodes_partial db given _ cat _ (serialize_encodes cat l hok) hwf hctx
+
+/-- the witness file is the plainest layout of the witness catalog -/
+theorem witness_is_serialized :
+    serialize witnessCat ⟨false, 0, 0, 0, [], false, [], [], [], []⟩ = witnessFile := by decide
 
 /-! ### the hidden-strings flag -/
 
